@@ -207,7 +207,7 @@ func histCases(d histDesc) []hx.Case {
 	// the bytes of the first save, for the exact comparison with the model's rendering: small files whose
 	// values avoid what the Coq printer delegates (floating-point texts, U+2028/2029)
 	text1 := "None"
-	if len(a.sv.bytes) <= textCap && textComparable(a.sv.info.tree) {
+	if len(a.sv.bytes) <= textCap && textComparable(a.sv.info.tree) && d.Authors == "" && d.WebScene == "" {
 		text1 = fmt.Sprintf("(Some (mkhdr %s %s %s, %s))", hx.CoqString(d.AppName), hx.CoqString(d.AppVersion),
 			hx.CoqString(d.AppDesc), hx.CoqString(string(a.sv.bytes)))
 		run_count("save-text-compared-with-model")
@@ -245,10 +245,13 @@ func histCases(d histDesc) []hx.Case {
 		} else {
 			cdigs = append(cdigs, "0")
 		}
-		return fmt.Sprintf("(Some (mkcont\n [%s]\n [%s] [%s]\n %s\n %s\n %s\n %s\n %s\n %s\n [%s]))",
+		// and the save made after the continuation (the live application has been saved before: this is its
+		// second, third ... save) is loaded into yet another fresh application
+		again := reloadAgain(l.sv, l.sum)
+		return fmt.Sprintf("(Some (mkcont\n [%s]\n [%s] [%s]\n %s\n %s\n %s\n %s\n %s\n %s\n [%s]\n %s))",
 			strings.Join(opsL, ";\n  "), strings.Join(oksL, ";"), strings.Join(oksR, ";"),
 			l.sum.Coq(), l.art.Coq(), l.sv.info.tree.Coq(), same(l.sum, sumR), same(l.art, artR), same(l.sv.info.tree, fileR),
-			strings.Join(cdigs, ";")), ""
+			strings.Join(cdigs, ";"), same(l.sum, again)), ""
 	}
 	c.Coq = render(false, b.sum, b.art, file2, dig2, digApp, "None")
 	c.Nontriv = a.sv.info.nDeps >= 1 && len(a.sv.info.ids) >= 2
@@ -283,12 +286,7 @@ func histCases(d histDesc) []hx.Case {
 	if len(na) != len(nb) {
 		return out
 	}
-	views := map[string][2]int{} // File node id -> (offset, length) of its payload view in file 1
-	for _, fn := range a.sv.info.tree.arr[0].arr {
-		if data := fn.arr[3]; data.k == jArr && len(data.arr[2].arr) == 2 {
-			views[fn.arr[0].s] = [2]int{int(data.arr[2].arr[0].i), int(data.arr[2].arr[1].i)}
-		}
-	}
+	views := fileViews(a.sv.info) // File node id -> (offset, length) of its payload view in file 1
 	for k := range na {
 		if nodeID(na[k]) != nodeID(nb[k]) || nodeTy(na[k]) != nodeTy(nb[k]) {
 			return out
@@ -352,6 +350,59 @@ func histCases(d histDesc) []hx.Case {
 	}
 	c2.Coq = render(true, m.sum, m.art, m.sv.info.tree, strings.Join(mdigs, ";"), digs[0], cont)
 	return append(out, c2)
+}
+
+// reloadAgain: a save loaded into a fresh application; the structure of what was loaded.  Where the loaded graph
+// differs from the wanted one by File payloads that grew by exactly the bytes stored after them (the known
+// over-read), these are cut back through the API first, as in the 'modulo' twin of a history.
+func reloadAgain(sv saved, want jv) jv {
+	app, inst := newApp(histDesc{})
+	defer forget(inst)
+	if o := guard(func() error { return app.ApplySchema(sv.bytes) }); !o.ok {
+		return jstr("the save made after the continuation does not load: " + o.class)
+	}
+	sum, err := summarize(inst, append([]string{}, sv.info.ids...))
+	if err != nil {
+		return jstr("after loading the save made after the continuation: " + err.Error())
+	}
+	if sum.equal(want) || !sv.info.overread {
+		return sum
+	}
+	nw, ng := sumNodes(want), sumNodes(sum)
+	if len(nw) != len(ng) {
+		return sum
+	}
+	views := fileViews(sv.info)
+	for k := range nw {
+		if nodeID(nw[k]) != nodeID(ng[k]) || nodeTy(nw[k]) != nodeTy(ng[k]) || tyTable[nodeTy(nw[k])].PKind != 2 {
+			continue
+		}
+		id := nodeID(nw[k])
+		v, ok := views[id]
+		if !ok || nw[k].arr[3].equal(ng[k].arr[3]) {
+			continue
+		}
+		cur := inst.Parameter(id).ToMessage()
+		if v[0]+v[1] <= len(sv.info.buffer) && bytes.Equal(cur, sv.info.buffer[v[0]:]) {
+			inst.UpdateParameter(id, append([]byte{}, cur[:v[1]]...))
+			run_count("continuation:second-reload-over-read-undone")
+		}
+	}
+	if sum, err = summarize(inst, append([]string{}, sv.info.ids...)); err != nil {
+		return jstr(err.Error())
+	}
+	return sum
+}
+
+// fileViews: File/Image node id -> (offset, length) of its payload view in a saved file
+func fileViews(info fileInfo) map[string][2]int {
+	views := map[string][2]int{}
+	for _, fn := range info.tree.arr[0].arr {
+		if data := fn.arr[3]; data.k == jArr && len(data.arr[2].arr) == 2 {
+			views[fn.arr[0].s] = [2]int{int(data.arr[2].arr[0].i), int(data.arr[2].arr[1].i)}
+		}
+	}
+	return views
 }
 
 // ---- shipped graph files ----
